@@ -255,6 +255,7 @@ def main():
             "known_findings_matched": nknown,
             "notes": R.notes[:20],
             "instances": [{"key": k, "ok": all(o for o, _, _ in v), "n": len(v)} for k, v in sorted(okkeys.items())],
+            "fingerprint": getattr(R, "fp_stats", None),
         },
         "assumptions": [
             "rustc's mir_built for `cargo +nightly check --workspace` (dev profile, default features) is the program; cfg(test) code is not analysed",
